@@ -241,3 +241,42 @@ func VerifH_KeyLockGroupOrder() {
 	symx.Assert(n2 == 0, "no per-key state left")
 	symx.Reach("end")
 }
+
+// C02/H5: many holders of one key. `holders` read locks are taken through the public API (the
+// controller takes them one after the other; a read lock never waits for readers), then one more
+// reader comes and goes: the key must still be held — a writer waits, the entry is still there —
+// until the last holder has released. The holder count ranges over a window around the wrap-around
+// points of narrow counters (2^8; 2^16 in the thorough tier).
+func VerifH_KeyLockManyHolders() {
+	v := verifNewLocker()
+	key := symx.Int("key")
+	// every holder count in a window [lo, lo+span) around the wrap-around point
+	lo, span := symx.Param("holdersLo", 250), symx.Param("holdersSpan", 12)
+	holders := symx.Concrete(symx.Int("holders"), lo, lo+span-1)
+	symx.Unwind(lo + span + 8)
+	for i := 0; i < holders; i++ {
+		v.RLock(key)
+	}
+	v.RLock(key)
+	v.RUnlock(key)
+	symx.Assert(v.entries() == 1, "the per-key state stays while holders remain")
+	var ghost int64
+	tw := symx.Go("writer", func() {
+		v.Lock(key)
+		symx.YieldOn(&ghost)
+		symx.GhostAdd(&ghost, 1)
+		v.Unlock(key)
+	})
+	symx.WaitQuiescent()
+	symx.Assert(symx.Blocked(tw) && symx.GhostLoad(&ghost) == 0, "a writer waits while readers hold the key")
+	for i := 0; i < holders; i++ {
+		if i == holders-1 {
+			symx.Assert(symx.Blocked(tw), "the writer waits for the last reader")
+		}
+		v.RUnlock(key)
+	}
+	symx.WaitQuiescent()
+	symx.MustFinish(tw, "the writer gets the key once every reader has released")
+	symx.Assert(v.entries() == 0, "no per-key state is left")
+	symx.Reach("end")
+}
